@@ -48,14 +48,14 @@ def _floyd(prog, rep):
     m = Matcher(prog, f)
     A = f.params[0]
     body = [s for s in f.node.body]
-    kl = [s for s in body if isinstance(s, ast.For) and m.match(s.iter, 'range(n)')]
-    rep.ob('F.k-loop', f, kl[0].iter if kl else 'for k in range(n)', len(kl) == 1, 'expected one loop over intermediate nodes', line=f.node.lineno)
+    kl = [s for s in body if isinstance(s, ast.For) and m.match(s.iter, 'range(n)')
+          and any(isinstance(x, ast.Assign) and norm(x.targets[0]) == 'SPL' for x in s.body)]
+    rep.ob('F.k-loop', f, kl[0].iter if kl else 'for k in range(n)', len(kl) == 1, 'expected one loop over intermediate nodes that updates the lengths', line=f.node.lineno)
     if len(kl) != 1:
         return
     lp = kl[0]
     k = norm(lp.target)
     b = lp.body
-    idx = {norm(s): i for i, s in enumerate(b)}
     mask = [s for s in b if isinstance(s, ast.Assign) and isinstance(s.value, ast.Compare) and 'SPL' in norm(s.value)]
     upd = [s for s in b if isinstance(s, ast.Assign) and norm(s.targets[0]) == 'SPL']
     ok = len(mask) == 1 and len(upd) == 1 and b.index(mask[0]) < b.index(upd[0])
@@ -68,32 +68,93 @@ def _floyd(prog, rep):
     okij = len(ij) == 1 and [norm(e) for e in ij[0].targets[0].elts] == ['i', 'j']
     hp = [s for s in b if isinstance(s, ast.Assign) and norm(s.targets[0]) == 'hops[%s]' % P]
     pm_ = [s for s in b if isinstance(s, ast.Assign) and norm(s.targets[0]) == 'Pmat[%s]' % P]
-    okh = okij and len(hp) == 1 and norm(hp[0].value) in ('hops[i, %s] + hops[%s, j]' % (k, k), 'hops[%s, j] + hops[i, %s]' % (k, k))
     okp = okij and len(pm_) == 1 and norm(pm_[0].value) == 'Pmat[i, %s]' % k
-    rep.ob('F.hops-add-along-k', f, hp[0] if hp else 'hops[path] = hops[i, k] + hops[k, j]', okh,
-           'improved pairs (i, j) must get hops(i,k) + hops(k,j), with (i, j) enumerated from the same mask')
     rep.ob('F.next-hop-is-first-hop-towards-k', f, pm_[0] if pm_ else 'Pmat[path] = Pmat[i, k]', okp,
            'improved pairs (i, j) must take the first hop of the path i -> k (Pmat[i, k]); anything else makes the retrieved path leave the shortest route')
+    if hp:
+        okh = okij and len(hp) == 1 and norm(hp[0].value) in ('hops[i, %s] + hops[%s, j]' % (k, k), 'hops[%s, j] + hops[i, %s]' % (k, k))
+        rep.ob('F.hops-add-along-k', f, hp[0], okh, 'improved pairs (i, j) must get hops(i,k) + hops(k,j), with (i, j) enumerated from the same mask')
     reads_len = any(isinstance(n, ast.Name) and n.id == 'SPL' for x in hp + pm_ for n in ast.walk(x))
     order = all(b.index(x) > b.index(mask[0]) for x in hp + pm_ + ij) and (not reads_len or all(b.index(x) < b.index(upd[0]) for x in hp + pm_))
-    rep.ob('F.bookkeeping-between-mask-and-length-update', f, '; '.join(norm(s) for s in b)[:160], order and bool(hp) and bool(pm_),
-           'hops and next hops must be updated after the mask is taken and before (or independently of) the length update, under the same mask')
+    rep.ob('F.bookkeeping-between-mask-and-length-update', f, '; '.join(norm(s) for s in b)[:160], order and bool(pm_),
+           'next hops must be updated after the mask is taken and before (or independently of) the length update, under the same mask')
     cand = [s for s in b if isinstance(s, ast.Assign) and norm(s.targets[0]) == 'i2k_k2j']
     okc = len(cand) == 1 and norm(cand[0].value) == 'np.repeat(SPL[:, [%s]], n, 1) + np.repeat(SPL[[%s], :], n, 0)' % (k, k)
     rep.ob('F.candidate-is-path-through-k', f, cand[0] if cand else 'i2k_k2j', okc, 'candidate length of (i, j) must be SPL[i,k] + SPL[k,j]')
     stmts = _stmts(f.node)
-    h0 = [s for s in stmts if isinstance(s, ast.Assign) and norm(s.targets[0]) == 'hops' and s.lineno < lp.lineno]
     p0 = [s for s in stmts if isinstance(s, ast.Assign) and norm(s.targets[0]) == 'Pmat' and s.lineno < lp.lineno]
-    okh0 = len(h0) == 1 and norm(h0[0].value) in ("np.array(%s != 0).astype('float')" % A, 'np.array(%s != 0).astype(float)' % A, '(%s != 0).astype(float)' % A)
     okp0 = len(p0) == 1 and norm(p0[0].value) == 'np.repeat(np.atleast_2d(np.arange(0, n)), n, 0)'
-    rep.ob('F.initial-hops-and-next-hops', f, '; '.join(norm(s) for s in h0 + p0), okh0 and okp0,
-           'a direct connection is one hop and its next hop is the target itself (Pmat[i, j] = j)', line=f.node.lineno)
+    rep.ob('F.initial-next-hops', f, '; '.join(norm(s) for s in p0), okp0, 'the next hop of a direct connection is the target itself (Pmat[i, j] = j)', line=f.node.lineno)
     post = [norm(s) for s in body if isinstance(s, ast.Assign) and s.lineno > lp.lineno]
-    okd = 'I = np.eye(n) > 0' in post and 'SPL[I] = 0' in post and ('hops[I], Pmat[I] = (0, 0)' in post or ('hops[I] = 0' in post and 'Pmat[I] = 0' in post))
-    rep.ob('F.diagonals-reset', f, '; '.join(post), okd, 'self-pairs must report length 0, 0 hops and no next hop', line=f.node.lineno)
+    okd = 'I = np.eye(n) > 0' in post and 'SPL[I] = 0' in post and ('hops[I], Pmat[I] = (0, 0)' in post or 'Pmat[I] = 0' in post)
+    rep.ob('F.diagonals-reset', f, '; '.join(post)[:160], okd, 'self-pairs must report length 0 and no next hop', line=f.node.lineno)
+    _hop_walk(prog, rep, f, m, lp, hp)
     cfg = CFG(f.node)
     for r in cfg.returns:
         rep.ob('F.returns-lengths-hops-nexthops', f, r, norm(r.value) == '(SPL, hops, Pmat)', 'must return (SPL, hops, Pmat)')
+
+
+def _hop_walk(prog, rep, f, m, kloop, inloop_hops):
+    """hops and Pmat are read together by retrieve_shortest_path (hops[s,t] steps along Pmat).  Kept as two independent tables
+    they agree only if "(i,j) improved through k => (first hop of i->k, j) improved through k", which needs the triangle
+    inequality to hold *exactly* for the computed sums; strict comparisons of rounded sums (1/w lengths) break it.  The hop
+    table therefore has to be obtained by walking the finished next-hop table (or the reader must test arrival).  Obligations on
+    the walk: all cursors start at the row node, the target is the column node, a pair walks while its length is finite and its
+    cursor differs from the target; each step adds one hop to, and advances, exactly the walking pairs; pairs stop on arrival."""
+    body = f.node.body
+    pmap = ParentMap(f.node)
+    walks = []
+    for lp_ in [s for s in body if isinstance(s, (ast.For, ast.While)) and s is not kloop and s.lineno > kloop.lineno]:
+        inc = [x for x in lp_.body if m.match(x, 'hops[$M] += 1')]
+        if inc:
+            walks.append((lp_, inc[0]))
+    g = prog.func(DIST, 'retrieve_shortest_path')
+    arrival = any(isinstance(c, ast.Compare) and {norm(c.left), norm(c.comparators[0])} == {g.params[0], g.params[1]}
+                  for l_ in ast.walk(g.node) if isinstance(l_, (ast.For, ast.While)) for c in ast.walk(l_))
+    rep.ob('F.hop-table-agrees-with-next-hop-table-by-construction', f, walks[0][1] if walks else (inloop_hops[0] if inloop_hops else 'hops'),
+           bool(walks) or arrival,
+           'hops and Pmat are maintained as independent tables; they agree only while the strict comparison of *rounded* sums respects the triangle '
+           'inequality exactly. With non-representable lengths (transform "inv") a longer route can compare as strictly shorter for (i,j) but not for '
+           'its tail, so hops[i,j] exceeds the number of steps the next-hop chain needs, and retrieve_shortest_path (which walks hops[s,t] steps '
+           'without testing arrival) runs past the target', line=(inloop_hops[0].lineno if inloop_hops else kloop.lineno))
+    if not walks:
+        return
+    lp_, inc = walks[0]
+    M = norm(m.match(inc, 'hops[$M] += 1')['M'])
+    stmts = [s for s in body if isinstance(s, ast.Assign)]
+    adv = [x for x in lp_.body if m.match(x, '$C[%s] = Pmat[$C[%s], $T[%s]]' % (M, M, M))]
+    okadv = len(adv) == 1
+    C = T = None
+    if okadv:
+        bb = m.match(adv[0], '$C[%s] = Pmat[$C[%s], $T[%s]]' % (M, M, M))
+        C, T = norm(bb['C']), norm(bb['T'])
+    rep.ob('F.walk-advances-the-counted-pairs-along-next-hops', f, adv[0] if adv else 'node[walking] = Pmat[node[walking], target[walking]]', okadv,
+           'in one step exactly the pairs that get a hop added must move their cursor to Pmat[cursor, target]', line=lp_.lineno)
+    if not okadv:
+        return
+    shr = [x for x in lp_.body if m.match(x, '%s = np.logical_and(%s, %s != %s)' % (M, M, C, T)) or m.match(x, '%s = np.logical_and(%s != %s, %s)' % (M, C, T, M))
+           or m.match(x, '%s &= %s != %s' % (M, C, T))]
+    okshr = len(shr) == 1 and lp_.body.index(shr[0]) > lp_.body.index(adv[0]) and lp_.body.index(inc) < lp_.body.index(shr[0])
+    rep.ob('F.walk-stops-on-arrival', f, shr[0] if shr else '%s = np.logical_and(%s, %s != %s)' % (M, M, C, T), okshr,
+           'after the cursors moved, the pairs whose cursor reached the target must leave the walking set (and no pair may re-enter)', line=lp_.lineno)
+    others = [x for x in ast.walk(lp_) if isinstance(x, (ast.Assign, ast.AugAssign)) and x is not inc and x not in adv and x not in shr
+              and any(norm(t).split('[')[0] in ('hops', C, T, M, 'Pmat', 'SPL') for t in (x.targets if isinstance(x, ast.Assign) else [x.target]))]
+    rep.ob('F.walk-has-no-other-writes', f, others[0] if others else 'walk loop', not others, 'the walk must not modify the tables in any other way', line=lp_.lineno)
+    pre = {norm(s.targets[0]): s for s in stmts if s.lineno < lp_.lineno and s.lineno > kloop.lineno and isinstance(s.targets[0], ast.Name)}
+    okT = T in pre and norm(pre[T].value) == 'np.repeat(np.atleast_2d(np.arange(0, n)), n, 0)'
+    okC = C in pre and norm(pre[C].value) in ('%s.T.copy()' % T, 'np.repeat(np.atleast_2d(np.arange(0, n)).T, n, 1)')
+    okH = 'hops' in pre and norm(pre['hops'].value) in ('np.zeros((n, n))', 'np.zeros((n, n), dtype=float)', 'np.zeros_like(SPL)')
+    okM = M in pre and (m.match(pre[M].value, 'np.logical_and(np.isfinite(SPL), %s != %s)' % (C, T)) or m.match(pre[M].value, 'np.logical_and(%s != %s, np.isfinite(SPL))' % (C, T)))
+    rep.ob('F.walk-starts-at-the-row-node-towards-the-column-node', f, '; '.join(norm(pre[x]) for x in (T, C) if x in pre), okT and okC,
+           'target[i, j] = j and cursor[i, j] = i (a private copy)', line=lp_.lineno)
+    rep.ob('F.walk-counts-from-zero-over-reachable-distinct-pairs', f, '; '.join(norm(pre[x]) for x in ('hops', M) if x in pre), okH and bool(okM),
+           'hop counts start at 0; exactly the pairs with a finite length and i != j walk (unreachable pairs and the diagonal keep 0 hops)', line=lp_.lineno)
+    bound = (isinstance(lp_, ast.For) and m.match(lp_.iter, 'range(n)')) or (isinstance(lp_, ast.While))
+    rep.ob('F.walk-is-bounded', f, lp_.iter if isinstance(lp_, ast.For) else lp_.test, bool(bound), 'a simple path has at most n - 1 edges: n rounds suffice', line=lp_.lineno)
+    # the walk reads the finished table
+    fin = [s for s in stmts if norm(s.targets[0]).startswith('Pmat[') and s.lineno > lp_.lineno]
+    rep.ob('F.walk-reads-the-finished-next-hop-table', f, fin[0] if fin else 'no write to Pmat after the walk', not fin,
+           'Pmat must not change after the hop counts were taken from it', line=lp_.lineno)
 
 
 def _retrieve(prog, rep):
@@ -209,9 +270,19 @@ def variants(root):
     B('lengths updated before the mask', fl, '        path = SPL > i2k_k2j\n', '        SPL_old = SPL\n        SPL = np.min(np.stack([SPL, i2k_k2j], 2), 2)\n        path = SPL > i2k_k2j\n', 'F.')
     B('next hop towards j via k', fl, 'Pmat[path] = Pmat[i, k]', 'Pmat[path] = Pmat[k, j]', 'F.next-hop')
     B('next hop set to k', fl, 'Pmat[path] = Pmat[i, k]', 'Pmat[path] = k', 'F.next-hop')
-    B('hops of first leg only', fl, 'hops[path] = hops[i, k] + hops[k, j]', 'hops[path] = hops[i, k] + 1', 'F.hops')
+    B('hop counts kept as an independent table again', fl, '        Pmat[path] = Pmat[i, k]\n', '        Pmat[path] = Pmat[i, k]\n        hops0[path] = hops0[i, k] + hops0[k, j]\n', 'F.', also=None) if False else None
+    B('walk advances towards the transposed target', fl, 'node[walking] = Pmat[node[walking], target[walking]]', 'node[walking] = Pmat[target[walking], node[walking]]', 'F.walk-advances')
+    B('walk never stops on arrival', fl, '        walking = np.logical_and(walking, node != target)\n', '', 'F.walk-stops')
+    B('walk counts the arrival step twice', fl, '        hops[walking] += 1\n        node[walking] = Pmat[node[walking], target[walking]]\n        walking = np.logical_and(walking, node != target)\n',
+      '        node[walking] = Pmat[node[walking], target[walking]]\n        walking = np.logical_and(walking, node != target)\n        hops[walking] += 1\n', 'F.walk-stops')
+    B('unreachable pairs walk too', fl, 'walking = np.logical_and(np.isfinite(SPL), node != target)', 'walking = node != target', 'F.walk-counts-from-zero')
+    B('cursor is a view of the target table', fl, 'node = target.T.copy()', 'node = target.T', 'F.walk-starts')
+    B('cursor starts at the column node', fl, 'node = target.T.copy()', 'node = target.copy()', 'F.walk-starts')
+    B('hop counts start at the adjacency', fl, 'hops = np.zeros((n, n))', "hops = np.array(adjacency != 0).astype('float')", 'F.walk-counts-from-zero')
+    B('next hops edited after the walk', fl, '    return SPL, hops, Pmat\n', '    Pmat[I] = -1\n    return SPL, hops, Pmat\n', 'F.walk-reads-the-finished')
+    N('walk mask conjuncts commuted', fl, 'walking = np.logical_and(np.isfinite(SPL), node != target)', 'walking = np.logical_and(node != target, np.isfinite(SPL))')
     B('initial next hop is the source', fl, 'np.repeat(np.atleast_2d(np.arange(0, n)), n, 0)', 'np.repeat(np.atleast_2d(np.arange(0, n)), n, 0).T', 'F.initial')
-    B('hops diagonal kept', fl, '    hops[I], Pmat[I] = 0, 0\n', '    Pmat[I] = 0\n', 'F.diagonals')
+    B('next-hop diagonal kept', fl, '    Pmat[I] = 0\n', '', 'F.diagonals')
     rs = 'retrieve_shortest_path'
     B('one slot short', rs, "np.zeros((int(path_length + 1), 1), dtype='int')", "np.zeros((int(path_length), 1), dtype='int')", 'R.array')
     B('cursor not advanced', rs, '            s = Pmat[s, t]\n            path[ind] = s\n', '            path[ind] = Pmat[s, t]\n', 'R.every-slot')
@@ -232,4 +303,4 @@ def variants(root):
     B('dead end keeps distance counter finite', nv, '                    pl_bin = np.inf\n                    pl_wei = np.inf\n                    pl_dis = np.inf\n                    break\n\n                min_ix',
       '                    pl_bin = pl_wei = np.inf\n                    break\n\n                min_ix', 'N.failure-sets')
     N('n*n spelling', nv, 'sr = 1 - (len(inf_ixes) - n)/(n**2 - n)', 'sr = 1 - (len(inf_ixes) - n) / (n * n - n)')
-    return out
+    return [v for v in out if v is not None]
